@@ -29,6 +29,7 @@ func init() {
 
 func runC02(x *X) {
 	runC02Reentrant(x)
+	runC02SecondTable(x)
 	type fam struct {
 		name   string
 		depth  int
